@@ -28,6 +28,7 @@ func main() {
 	known := flag.String("known", "/verif/known_findings.json", "known findings file")
 	replay := flag.String("replay", "", "replay file: re-decide the obligations listed there")
 	list := flag.Bool("list", false, "list rules")
+	dumpEmit := flag.Bool("dump-emit", false, "print the emission traces of the emitter functions and exit")
 	verbose := flag.Bool("v", false, "print every obligation")
 	flag.Parse()
 
@@ -60,7 +61,7 @@ func main() {
 		*prop = doc.Property
 		*verbose = true
 	}
-	if *prop == "" {
+	if *prop == "" && !*dumpEmit {
 		fmt.Println("usage: wirecheck -property Cnn [-tier quick|thorough]")
 		os.Exit(2)
 	}
@@ -78,6 +79,22 @@ func main() {
 			fmt.Printf("VIOLATION property=%s replay=%s/replay/%s.json\n", p, *evdir, p)
 		}
 		os.Exit(1)
+	}
+	if *dumpEmit {
+		for _, name := range emitterFuncs {
+			fi := c.Fn(c.W, name)
+			if fi == nil {
+				fmt.Println("##", name, "NOT FOUND")
+				continue
+			}
+			e := newEmitter(c, fi)
+			tr := e.run()
+			fmt.Printf("## %s (%d emit sites)\n%s\n", name, e.sites, renderTrace(tr))
+			for _, is := range e.issues {
+				fmt.Println("   ISSUE:", is)
+			}
+		}
+		return
 	}
 	exit := 0
 	for _, p := range propList(*prop) {
